@@ -85,6 +85,13 @@ func (l *patchLoader) LoadFileList(patchList string) (err error) {
 			return fmt.Errorf("load patch %q: %w", path, err)
 		}
 	}
+
+	// The scanner stops at the first read error (the list is a
+	// directory, for example) or at a line that is too long for it. The
+	// patches listed after that point were not loaded.
+	if err := scanner.Err(); err != nil {
+		return fmt.Errorf("read list: %w", err)
+	}
 	return nil
 }
 
